@@ -370,7 +370,7 @@ class CrashRun:
                                 "recovery: {}".format(tag, e))
             check_dataset(sub, sw, m.sort_combos, None, kind, "recovered-on-disk")
         if self.role == "sampler":
-            approx = fspec.engine == "csv"
+            approx = False  # (csv round-trips exactly since fix: load_df float_precision)
             if val is not None:
                 rows_self_consistent(val, m, "recovered-rows:" + what, approx=False)
             disk, _ = m.call("fresh-reader",
